@@ -548,6 +548,17 @@ def l6(ctx):
                         ((ja[1].is_const and isinstance(ja[1].val, str)) or ja[1].k == 'modconst')
                 if not plain or not (uri is None or (uri.is_const and not uri.val)):
                     okc = False
+    # the lock timeout is owned by the `timeout` argument: no stored sqlite_* setting may replace it on every connection
+    try:
+        ce, cm = ctx.prog.const_expr('core', 'DEFAULT_SETTINGS')
+        names = set(ctx.fold(ce, cm)) if ce is not None else set()
+    except ValueError:
+        names = {k.value for k in getattr(ce, 'keys', []) if isinstance(k, ast.Constant)}
+    obs.append(Ob('L6', 'no-busy-timeout-setting', 'sqlite_busy_timeout' not in names,
+                  'DEFAULT_SETTINGS contains sqlite_busy_timeout: every connection replays the stored sqlite_* settings as '
+                  'PRAGMAs, so PRAGMA busy_timeout overrides the timeout the object was created with - Cache(timeout=0.2) '
+                  'no longer raises Timeout promptly and FanoutCache/DjangoCache block instead of reporting failure',
+                  con.loc()))
     obs.append(Ob('L6', 'connect-autocommit-with-timeout', okc and nc > 0,
                   'sqlite3.connect is not called on the plain path join(self._directory, DBNAME) with isolation_level=None and timeout=self._timeout: implicit '
                   'transactions of the sqlite3 module would hold or break the explicit BEGIN IMMEDIATE protocol, or the '
